@@ -17,9 +17,18 @@ def one(sseed, kind, direction):
     R = random.Random(sseed)
     with tempdir("kts") as d:
         specs = gen.rand_specs(R, finite=(kind == "grid"), nonfixed=(kind == "bayes"))
-        o = gen.make_oracle(R, kind, specs, d, objective=kt.Objective("score", direction))
+        over = {}
+        focus = kind == "bayes" and R.random() < 0.7
+        if focus:
+            # the Gaussian-process phase with trials in flight: several tuners, a budget well past the warm-up, mostly
+            # successful runs - the model is then fitted on completed scores AND on pessimistic guesses for running trials
+            over = dict(max_trials=R.randint(5, 9), num_initial_points=R.randint(1, 2), max_retries_per_trial=0, max_consecutive_failed_trials=9)
+        o = gen.make_oracle(R, kind, specs, d, objective=kt.Objective("score", direction), **over)
         # tie-heavy scores so that the tie-breaking of sorted(..., reverse=True) matters
         sc = lambda R_, t: float(R_.choice([0, 1, 1, 2, 2, 3, -1, 0.5]))
+        if focus:
+            return run_schedule(o, R, steps=R.randint(30, 70), ntuners=R.randint(2, 3), score_of=sc, outcomes=["C", "C", "C", "C", "INV"],
+                                sign=(1.0 if direction == "max" else -1.0), best_every=0.1, fair_finish=True)
         return run_schedule(o, R, steps=R.randint(10, 70), score_of=sc, sign=(1.0 if direction == "max" else -1.0),
                             best_every=0.15, fair_finish=(kind != "random"))
 
@@ -43,8 +52,6 @@ def run(seed, tier, n=None, kinds=KINDS):
     R = random.Random(seed ^ 0xC04)
     for i in range(n):
         kind = kinds[i % len(kinds)]
-        if kind == "bayes" and tier == "quick" and i % 8 != 3:
-            kind = "hyperband"
         sseed = R.randrange(1 << 30)
         res.scenarios += 1
         try:
